@@ -8,17 +8,32 @@
 package di
 
 //@ func (*Container).Badger
+//@   requires nn: c != nil
 //@ func (*Container).Cleaner
+//@   requires nn: c != nil
 //@ func (*Container).ContentFileRepo
+//@   requires nn: c != nil
 //@ func (*Container).ContentRepo
+//@   requires nn: c != nil
 //@ func (*Container).Core
+//@   requires nn: c != nil
 //@ func (*Container).Dir
+//@   requires nn: c != nil
 //@ func (*Container).DirRepo
+//@   requires nn: c != nil
 //@ func (*Container).FileRepo
+//@   requires nn: c != nil
 //@ func (*Container).Gen
+//@   requires nn: c != nil
 //@ func (*Container).Pool
+//@   requires nn: c != nil
 //@ func (*Container).Rand
+//@   requires nn: c != nil
 //@ func (*Container).Store
+//@   requires nn: c != nil
 //@ func (*Container).StoreService
+//@   requires nn: c != nil
 //@ func (*Container).Transaction
+//@   requires nn: c != nil
 //@ func (*Container).TransactionRepo
+//@   requires nn: c != nil
